@@ -20,6 +20,7 @@ import (
 	"os"
 	"reflect"
 	"regexp"
+	"runtime"
 	"strings"
 	"time"
 )
@@ -390,7 +391,12 @@ func Replay(harnesses map[string]func()) (status, detail string) {
 	}
 	var panicked interface{}
 	func() {
-		defer func() { panicked = recover() }()
+		defer func() {
+			panicked = recover()
+			if panicked != nil {
+				panicStack = shortStack()
+			}
+		}()
 		h()
 	}()
 	if _, isAssume := panicked.(AssumeFailed); isAssume {
@@ -400,7 +406,7 @@ func Replay(harnesses map[string]func()) (status, detail string) {
 		if cex.Label == "panic" {
 			return "reproduced", fmt.Sprintf("native run panicked: %v", panicked)
 		}
-		return "not-reproduced", fmt.Sprintf("native run panicked (%v) but the violated assertion is %q", panicked, cex.Label)
+		return "not-reproduced", fmt.Sprintf("native run panicked (%v) but the violated assertion is %q; stack: %s", panicked, cex.Label, panicStack)
 	}
 	for _, f := range Failed {
 		if f == cex.Label {
@@ -411,3 +417,22 @@ func Replay(harnesses map[string]func()) (status, detail string) {
 }
 
 // RunSchedule, Yield, ThreadName: see sched_native.go
+
+var panicStack string
+
+func shortStack() string {
+	buf := make([]byte, 1<<14)
+	n := runtime.Stack(buf, false)
+	lines := strings.Split(string(buf[:n]), "\n")
+	var out []string
+	for _, l := range lines {
+		l = strings.TrimSpace(l)
+		if strings.HasPrefix(l, "/") && !strings.Contains(l, "/zzverif/") && !strings.Contains(l, "runtime/") {
+			out = append(out, l)
+		}
+		if len(out) >= 6 {
+			break
+		}
+	}
+	return strings.Join(out, " <- ")
+}
